@@ -1,15 +1,16 @@
 """Fragment table (tools/py2v.py) for the products area (C04): the scalar decision code of
 `sparse/numba_backend/_common.py` that sits in front of the kernels.
 
-  g_dot            the whole body of `dot(a, b)`: the 1-d . 1-d special case (which multiplies and sums
-                   WITHOUT comparing the two lengths — finding D19) and the choice of contraction axes
-                   handed to tensordot (a_axis = -1, b_axis = -2, or -1 for a 1-d b).
+  g_dot            the whole body of `dot(a, b)`: the 1-d . 1-d special case (ValueError when the two
+                   lengths differ, else multiply and sum) and the choice of contraction axes handed to
+                   tensordot (a_axis = -1, b_axis = -2, or -1 for a 1-d b).
   g_tensordot_0d   the block `if nda == 0 or ndb == 0:` of `tensordot`: a 0-d operand is multiplied
                    in when no axes are requested, otherwise ValueError.
   g_vecdot         the whole body of `vecdot`: the admissibility guard on `axis` and the two extents.
 
 Array-valued sub-expressions are replaced (keyed by their exact source text, fail-closed) by
-terms over the scalar parameters: `a.ndim` is the parameter a_ndim, `x1.shape[axis]` is x1_ext, the
+terms over the scalar parameters: `a.ndim` is the parameter a_ndim, `a.shape != b.shape` (both 1-d
+there) compares the parameters a_len and b_len, `x1.shape[axis]` is x1_ext, the
 calls that leave the scalar fragment return a tagged tuple describing the call:
   VTuple [VInt 0; a; b]            (a * b).sum()            (1-d . 1-d path of dot)
   VTuple [VInt 1; a_axis; b_axis]  tensordot(a, b, axes=(a_axis, b_axis))
@@ -23,9 +24,10 @@ CM = "sparse/numba_backend/_common.py"
 FILES = {
     "G_dot.v": [
         dict(name="g_dot", file=CM, func="dot", callable=False,
-             params=["a", "b", "a_ndim", "b_ndim"],
+             params=["a", "b", "a_ndim", "b_ndim", "a_len", "b_len"],
              extern={
                  "check_zero_fill_value(a, b)": "Ok VNone",
+                 "a.shape != b.shape": "py_ne a_len b_len",
                  "not hasattr(a, 'ndim') or not hasattr(b, 'ndim')": "Ok (VBool false)",
                  "a.ndim": "Ok a_ndim",
                  "b.ndim": "Ok b_ndim",
